@@ -1,6 +1,7 @@
 package c15
 
 import (
+	"strconv"
 	"strings"
 
 	"verif/harness/internal/core"
@@ -72,7 +73,53 @@ func twinOp(r *core.Rand, a *msggen.Abs, mode string) string {
 	return strings.Join(append([]string{"twin", logger, o1, o2, skip, mode}, a.Tokens()...), " ")
 }
 
+// bigCases: every logger with body capture on, on request and response, each framing, with a body
+// just over 1 MiB (thorough: also 2 MiB and compressed) — a logger that truncates or re-frames a
+// large body shows here.
+func bigCases(r *core.Rand, tier string, emit func([]string)) {
+	sizes := []int{1<<20 + 1}
+	encs := []string{""}
+	if tier == "thorough" {
+		sizes = []int{1<<20 - 1, 1 << 20, 1<<20 + 1, 2 << 20}
+		encs = []string{"", "gzip", "deflate", "br"}
+	}
+	type lg struct{ name, o1, o2 string }
+	loggers := []lg{{"har", "all", "all"}, {"marbl", "-", "-"}, {"text", "0", "0"}, {"text", "0", "1"}, {"snapshot", "0", "-"}}
+	for _, n := range sizes {
+		for _, enc := range encs {
+			for _, req := range []bool{true, false} {
+				for _, fr := range []string{"cl", "chunked", "eof"} {
+					if req && fr == "eof" {
+						continue
+					}
+					var ops []string
+					for _, l := range loggers {
+						seed := r.U64() % 1000000
+						kind := r.Pick("bin", "text")
+						s := &msggen.Spec{Req: req, Method: "POST", URL: "http://h.example/big", Host: "h.example", Code: 200,
+							Framing: fr, Enc: enc, CT: "application/octet-stream", Payload: msggen.Payload(core.NewRand(seed), kind, n)}
+						e := "id"
+						if enc == "gzip" || enc == "deflate" {
+							e = enc
+						}
+						s.BodyTok = "gen:" + e + ":" + kind + ":" + strings.TrimSpace(strings.Join([]string{itoa(int(seed)), itoa(n)}, ":"))
+						if fr == "chunked" {
+							s.Chunks = []int{1 + r.Intn(70000), 1 + r.Intn(70000)}
+						}
+						core.Count("big:" + l.name)
+						ops = append(ops, strings.Join(append([]string{"twin", l.name, l.o1, l.o2, "0", "p"}, s.Abs().Tokens()...), " "))
+					}
+					emit(ops)
+				}
+			}
+		}
+	}
+}
+
+func itoa(n int) string { return strconv.Itoa(n) }
+
 func (P) Gen(r *core.Rand, tier string, emit func([]string)) {
+	bigCases(r.Fork(), tier, emit)
 	n := 350
 	if tier == "thorough" {
 		n = 4000
@@ -114,7 +161,7 @@ func (P) Gen(r *core.Rand, tier string, emit func([]string)) {
 		maxTwin := 65536
 		if tier == "thorough" && r.Chance(1, 3) {
 			maxTwin = 2 << 20
-		} else if r.Chance(1, 25) {
+		} else if r.Chance(1, 10) {
 			maxTwin = 1<<20 + 4096
 		}
 		for k := 0; k < 2; k++ {
